@@ -96,6 +96,70 @@ def judge(ctx, stream, cases):
                 (ctx.broken if in_domain else ctx.drift).append(rec)
 
 
+
+def _layer_reuse(case):
+    """ONE LayerRule object applied to a first architecture and then to the case's architecture; outcome of the second
+    application and of a fresh rule object on the second architecture"""
+    from ..impl import LayerRule, err_kind, make_graph, parse_message
+    from ..layers_common import LOPS, make_arch
+
+    def build():
+        arch = make_arch(case["arch"])
+        r = LayerRule()
+        for op, arg in case["lops"]:
+            r = r.based_on(arch) if op == "based" else LOPS[op](r, arg)
+        return r
+
+    def apply(r, g):
+        try:
+            r.assert_applies(g)
+        except AssertionError as e:
+            return "FAIL:" + ";".join(parse_message(str(e)))
+        except Exception as e:  # noqa: BLE001
+            return "ERR:" + err_kind(e)
+        return "PASS"
+
+    g1 = make_graph(case["nodes1"], case["imps1"])
+    g2 = make_graph(case["nodes"], case["imps"])
+    try:
+        r = build()
+        fresh = build()
+    except Exception as e:  # noqa: BLE001
+        return ("BUILDERR:" + type(e).__name__,) * 2
+    apply(r, g1)
+    return apply(r, g2), apply(fresh, g2)
+
+
+def layer_reuse_stream(ctx, stream, n):
+    rng = ctx.rng("layer-reuse")
+    cases = []
+    while len(cases) < n:
+        nodes = gen.random_tree(rng, max_nodes=14, comps=gen.IDENT_ADVERSARIAL)
+        if len(nodes) < 5:
+            continue
+        imps = gen.random_imports(rng, nodes, 10)
+        c = make_case(rng, nodes, imps, force_kinds=["R", "R", "R", "R"] if rng.random() < 0.7 else None)
+        if not c:
+            continue
+        listed = {m for _, k, p in c["arch"] for m in (p if k == "N" else [])}
+        leaves = [m for m in nodes if not any(x.startswith(m + ".") for x in nodes) and m not in listed]
+        drop = set(rng.sample(leaves, min(len(leaves), rng.randint(1, 3)))) if leaves else set()
+        c["nodes1"] = [m for m in nodes if m not in drop]
+        c["imps1"] = [e for e in imps if e[0] not in drop and e[1] not in drop][: max(0, len(imps) - 2)]
+        if len(c["nodes1"]) >= 2:
+            cases.append(c)
+    res = pmap(_layer_reuse, cases, ctx.jobs, chunk=100)
+    for c, (a, b) in zip(cases, res):
+        stream.evaluations += 1
+        stream.count("reuse:" + a.split(":")[0])
+        stream.nontrivial.add(digest((c["nodes"], c["imps"], c["arch"], c["lops"], c["nodes1"])))
+        if a != b:
+            ctx.violations.append({"kind": "property-violation", "what": "a LayerRule object that was applied to another architecture before gives a different outcome than a fresh one",
+                                   "reused": a, "fresh": b, "line": layer_line(c), "first_architecture": {"nodes": c["nodes1"], "imports": c["imps1"]}})
+            if len(ctx.violations) >= 3:
+                return
+
+
 def run(ctx: Ctx):
     run_witnesses(ctx)
     quick = ctx.quick()
@@ -131,5 +195,9 @@ def run(ctx: Ctx):
                     cases.append(c)
             judge(ctx, s, cases)
             done += len(cases)
+        s.finish()
+    if not ctx.violations:
+        s = Stream(ctx, "re-used LayerRule objects (regex layers resolved per architecture): second application vs a fresh object")
+        layer_reuse_stream(ctx, s, ctx.size(1500, 15000))
         s.finish()
     return RULE
